@@ -585,10 +585,12 @@ class Dataset:
         if not isinstance(other, Dataset):
             return NotImplemented
 
-        self_str_rankings: List[str] = [str(ranking).strip().replace(" ", "") for ranking in self.rankings]
-        other_str_rankings: List[str] = [str(ranking).strip().replace(" ", "") for ranking in other.rankings]
+        # each ranking is represented by the tuple of its buckets (as frozensets): the comparison does not depend on
+        # the order of iteration over the elements of a bucket, nor on the textual form of the elements
+        self_rankings = Counter(tuple(frozenset(bucket) for bucket in ranking) for ranking in self.rankings)
+        other_rankings = Counter(tuple(frozenset(bucket) for bucket in ranking) for ranking in other.rankings)
 
-        return Counter(self_str_rankings) == Counter(other_str_rankings)
+        return self_rankings == other_rankings
 
 
 class DatasetSelector:
